@@ -1,7 +1,7 @@
 //! Templates: SafeSoftmaxFusion, AddSoftmaxFusion, RepeatInterleaveFusion,
 //! GroupedQueryAttentionMatMulFusion.
 
-use crate::c01::{Built, Template, ax};
+use crate::c01::{Built, Template, ax, ax2};
 use crate::patterns::*;
 use crate::prog::{AttrV, Dt, Meta};
 
@@ -22,7 +22,7 @@ fn safe_softmax(thorough: bool) -> Template {
     let data = data_shapes(thorough);
     let nd = data.len();
     let axes = vec![
-        ax("const shape", CS_N, true),
+        ax2("const shape", CS_N),
         ax("const value", 3, true),
         ax("softmax axis", 3, false),
         ax("where form", 3, true),
@@ -234,7 +234,7 @@ fn gqa(thorough: bool) -> Template {
         ax("matmul form", 4, true),
         ax("transpose perm", np, true),
         ax("repeat form", 4, true),
-        ax("scale const shape", 3, true),
+        ax2("scale const shape", 3),
         ax("input metadata", 3, false),
         ax("extra consumer", 3, true),
     ];
